@@ -34,7 +34,9 @@ def run(tier, seed):
         v.cov["mc_configs"].append({"cfg": f"MC_Rpc_{c}", "distinct": r.distinct, "generated": r.generated, "result": "OwnReplyOnly, AtMostOnce, NothingLeft hold"})
     lib.tlc_expect_violation("mc/MC_Rpc.tla", "mc/MC_Rpc_leak.cfg", PID, "mc_leak", "NothingLeft")
     lib.tlc_expect_violation("mc/MC_Rpc.tla", "mc/MC_Rpc_noto.cfg", PID, "mc_noto", "NothingLeft")
-    v.cov["mc_configs"] += [{"cfg": "MC_Rpc_leak", "result": "counterexample to NothingLeft with LeakOnSendError (the defect fixed by 18c56d0)"},
+    lib.tlc_expect_violation("mc/MC_Rpc.tla", "mc/MC_Rpc_nocreation.cfg", PID, "mc_nocreation", "OwnReplyOnly")
+    v.cov["mc_configs"] += [{"cfg": "MC_Rpc_nocreation", "result": "counterexample to OwnReplyOnly when the table key ignores the creation (stale-incarnation reply completes a live call)"},
+                            {"cfg": "MC_Rpc_leak", "result": "counterexample to NothingLeft with LeakOnSendError (the defect fixed by 18c56d0)"},
                             {"cfg": "MC_Rpc_noto", "result": "counterexample to NothingLeft without RemoveOnTimeout"}]
     v.cov["states"], v.cov["transitions"] = states, trans
     # behaviours to execute
@@ -43,8 +45,10 @@ def run(tier, seed):
     sample_one = one if thorough else rng.sample(one, min(len(one), 80))
     # make sure the fault paths are in (send failure, no connection, timeout with a late reply)
     must = [b for b in one if b["conn"] != "up"][: (400 if thorough else 40)]
+    stale = [b for b in one if any(a[0] == "reply" and 50 < a[1] < 99 for a in b["hist"]) and b["conn"] == "up"]
+    stale = rng.sample(stale, min(len(stale), 300 if thorough else 40))
     late = [b for b in one if any(a[0] == "timeout" for a in b["hist"]) and any(a[0] == "route" for a in b["hist"])][: (200 if thorough else 25)]
-    scen = {json.dumps(b["hist"]) + b["conn"]: b for b in sample_one + must + late + two}
+    scen = {json.dumps(b["hist"]) + b["conn"]: b for b in sample_one + must + late + stale + two}
     scen = list(scen.values())
     for i, s in enumerate(scen):
         s["id"] = i
@@ -96,7 +100,7 @@ def run(tier, seed):
         raise lib.ToolError(f"{desync} of {len(obs)} schedules could not be followed on the real node (scheduler / hooks out of step)")
     v.cov["traces_validated_against_impl"] = len(obs) - desync
     v.cov["schedules_not_followed"] = desync
-    v.cov["rule"] = ("TLC: every interleaving of 2 callers (connection up / absent / broken) and 3 callers with up to 3 peer replies (own, duplicate, stray, late); executed on the real Node: "
+    v.cov["rule"] = ("TLC: every interleaving of 2 callers (connection up / absent / broken) and 3 callers with up to 3 peer replies (own, duplicate, stray, late, addressed to the reply pid of another incarnation of the node); executed on the real Node: "
                      "behaviours of one caller (all in thorough, 120 + all fault paths sampled in quick) and TLC-simulated behaviours of two callers, each step forced through the guarded "
                      "scheduling points (allocated / inserted / sent / timed_out; receiver frame / routed / closing); distinct = (schedule, connection state)")
     v.assumptions += ["timeouts are real time (60 ms for calls that time out in the model, 4 s otherwise)",
